@@ -70,3 +70,144 @@ Print Assumptions C17_dec_model_meets_prop.
 Print Assumptions C17_int16_roundtrip.
 Print Assumptions C17_int32_roundtrip.
 Print Assumptions C17_data_roundtrip.
+
+(* ====================================================================== *)
+(* C17 - property theorems (IPP part).  Model: C17/IppModel.v (the code as it is =
+   [as_coded]; [patched] = after fixes/C17-ipp-*.patch); [supported fx n m] is the class
+   of requests of the property's quantifier that the code with repairs [fx] can take
+   (see IppProofs.v: every supported value tag, >= 1 value, names 1..32767 bytes, strings
+   up to 32767 bytes, int32 integers, any delimiter tags, any document; with [as_coded]:
+   no boolean, no rangeOfInteger, at most 2 integer values); [n] is the fuel. *)
+From HT Require Import C17.IppModel C17.IppCheck C17.IppProofs.
+
+(* an IPP request built from the supported attribute types decodes to the operation,
+   request id, attributes and document data that were encoded - never out of fuel *)
+Theorem C17_ipp_roundtrip : forall fx n m,
+  supported fx n m = true -> dec_msg fx n (enc_request m) = ROk m.
+Proof. exact dec_msg_enc. Qed.
+
+Theorem C17_ipp_roundtrip_as_coded : forall n m,
+  supported as_coded n m = true -> dec_msg as_coded n (enc_request m) = ROk m.
+Proof. exact (dec_msg_enc as_coded). Qed.
+
+(* full class of the property, for the code after the proposed repairs *)
+Theorem C17_ipp_roundtrip_patched : forall n m,
+  supported patched n m = true -> dec_msg patched n (enc_request m) = ROk m.
+Proof. exact (dec_msg_enc patched). Qed.
+
+(* the reply echoes version, request id, charset and language (reply_echo_ok: it starts
+   with version, status 0, request id and the operation group holding exactly the
+   charset/language attributes of the request's operation group, and ends with the end
+   tag); the event carries the document and, for a print job, printer URI, user and
+   job name unchanged.  [pj_safe]: outside the print-job finding. *)
+Theorem C17_ipp_request_served : forall fx n m,
+  supported fx n m = true -> pj_safe fx m = true ->
+  exists body uri user job,
+    handler fx n (enc_request m) = HReply body uri user job (m_data m) /\
+    reply_echo_ok m body = true /\
+    (m_op m = OP_PRINT_JOB ->
+       uri = lookup_str N_URI (first_op_attrs m) /\
+       user = lookup_str N_USER (first_op_attrs m) /\
+       job = lookup_str N_JOB (first_op_attrs m)).
+Proof. exact request_served. Qed.
+
+(* setPrintJobResponse, for every attribute list: the fields are the named attributes *)
+Theorem C17_ipp_print_job_fields : forall fx l p p',
+  pj_scan fx l p = Some p' ->
+  pj_uri p' = lookup_from N_URI l (pj_uri p) /\
+  pj_user p' = lookup_from N_USER l (pj_user p) /\
+  pj_job p' = lookup_from N_JOB l (pj_job p).
+Proof. exact pj_scan_fields. Qed.
+
+(* the model's observation passes the executable property used on implementation runs *)
+Theorem C17_ipp_model_meets_prop : forall fx n m,
+  supported fx n m = true -> pj_safe fx m = true ->
+  match handler fx n (enc_request m) with
+  | HReply b u us j d => clause_sig m (m_data m) (OReply b u us j (DOLit d)) = 0%N
+  | _ => False
+  end.
+Proof. exact model_meets_clause. Qed.
+
+(* ---- the code as it is, outside [supported as_coded]: refuted forms ---- *)
+Theorem C17_ipp_boolean_refuted :
+  supported patched 20 w_bool = true /\
+  exists m', dec_msg as_coded 20 (enc_request w_bool) = ROk m' /\ m' <> w_bool.
+Proof. exact w_bool_refuted. Qed.
+
+Theorem C17_ipp_boolean_last_no_return :
+  supported patched 20 w_bool_last = true /\
+  handler as_coded (N.to_nat 3000) (enc_request w_bool_last) = HHang.
+Proof. exact w_bool_last_refuted. Qed.
+
+Theorem C17_ipp_integer_1setof_refuted :
+  supported patched 20 w_int3 = true /\
+  exists m', dec_msg as_coded 20 (enc_request w_int3) = ROk m' /\ m' <> w_int3.
+Proof. exact w_int3_refuted. Qed.
+
+Theorem C17_ipp_range_of_integer_refuted :
+  supported patched 20 w_range = true /\
+  handler as_coded 20 (enc_request w_range) = HPanic /\
+  exists m', dec_msg as_coded 20 (enc_request w_range) = ROk m' /\ m' <> w_range.
+Proof. exact w_range_refuted. Qed.
+
+Theorem C17_ipp_print_job_nonstring_refuted :
+  supported as_coded 20 w_pj_int = true /\ handler as_coded 20 (enc_request w_pj_int) = HPanic.
+Proof. exact w_pj_int_refuted. Qed.
+
+Theorem C17_ipp_unknown_value_tag_refuted :
+  forall n, (2 <= n)%nat -> handler as_coded n w_unknown_raw = HPanic.
+Proof. exact w_unknown_refuted. Qed.
+
+(* no fuel suffices for a body without end-of-attributes tag *)
+Theorem C17_ipp_missing_end_tag_diverges : forall n, handler as_coded n [] = HHang.
+Proof. exact empty_body_diverges. Qed.
+
+(* the repaired code decodes / serves every witness above and refuses the empty body *)
+Theorem C17_ipp_patched_serves_witnesses :
+  dec_msg patched 20 (enc_request w_bool) = ROk w_bool /\
+  dec_msg patched 20 (enc_request w_bool_last) = ROk w_bool_last /\
+  dec_msg patched 20 (enc_request w_int3) = ROk w_int3 /\
+  dec_msg patched 20 (enc_request w_range) = ROk w_range /\
+  (exists b u us j d, handler patched 20 (enc_request w_pj_int) = HReply b u us j d) /\
+  (exists b u us j d, handler patched 20 w_unknown_raw = HReply b u us j d).
+Proof. exact witnesses_patched. Qed.
+
+Theorem C17_ipp_patched_refuses_empty_body :
+  forall n, (1 <= n)%nat -> handler patched n [] = HNoReply.
+Proof. exact empty_body_patched. Qed.
+
+(* non-vacuity: a print job with string, integer (1 and 2 values), enum and multi-valued
+   keyword attributes is in the class the unchanged code serves *)
+Example C17_ipp_supported_nonvacuous :
+  supported as_coded 20 ex_print_job = true /\ pj_safe as_coded ex_print_job = true.
+Proof. exact ex_print_job_supported. Qed.
+
+Print Assumptions C17_ipp_roundtrip.
+Print Assumptions C17_ipp_roundtrip_as_coded.
+Print Assumptions C17_ipp_roundtrip_patched.
+Print Assumptions C17_ipp_request_served.
+Print Assumptions C17_ipp_print_job_fields.
+Print Assumptions C17_ipp_model_meets_prop.
+Print Assumptions C17_ipp_boolean_refuted.
+Print Assumptions C17_ipp_boolean_last_no_return.
+Print Assumptions C17_ipp_integer_1setof_refuted.
+Print Assumptions C17_ipp_range_of_integer_refuted.
+Print Assumptions C17_ipp_print_job_nonstring_refuted.
+Print Assumptions C17_ipp_unknown_value_tag_refuted.
+Print Assumptions C17_ipp_missing_end_tag_diverges.
+Print Assumptions C17_ipp_patched_serves_witnesses.
+Print Assumptions C17_ipp_patched_refuses_empty_body.
+
+(* the fuel the correspondence run hands the model (two more than the number of request
+   bytes) suffices for every supported request *)
+Theorem C17_ipp_fuel_suffices : forall fx n m,
+  supported fx n m = true -> supported fx (fuel_for (enc_request m)) m = true.
+Proof. exact supported_fuel_for. Qed.
+
+Theorem C17_ipp_roundtrip_with_run_fuel : forall fx n m,
+  supported fx n m = true ->
+  dec_msg fx (fuel_for (enc_request m)) (enc_request m) = ROk m.
+Proof. exact dec_msg_enc_fuel_for. Qed.
+
+Print Assumptions C17_ipp_fuel_suffices.
+Print Assumptions C17_ipp_roundtrip_with_run_fuel.
